@@ -2,7 +2,7 @@
    ast_laue_sysabs: AST-translated from laue.py (equal to the tools version, C14); segm_laue / segm_tools: literals of genhkl_base;
    all_settings: the 237 tables; model/Traverse.v: hand model of the traversal, tied by in-Coq evaluation against the implementation. *)
 From Coq Require Import ZArith List Bool String.
-From XV Require Import SGroup HklModel Traverse Tab_segm Ast_laue Tab_sg_all P05.
+From XV Require Import SGroup HklModel Traverse Tab_segm Ast_laue Tab_sg_all P05 P05_complete P06_fd P06_fd_main.
 Open Scope Z_scope.
 
 (* on the traversal's asymmetric unit (box [-7,7]^3, all 237 settings): sysabs = 0  <->  no operation (R,t) has hR = h with h.t non-integer *)
@@ -31,3 +31,48 @@ Theorem C06_expand_is_orbit : forall rots h, NoDup (expand rots h) /\
   forall x, In x (expand rots h) <-> exists R, In R rots /\ (x = vmZ h R \/ x = vmZ h (mnegZ R)).
 Proof. exact expand_is_orbit. Qed.
 Print Assumptions C06_expand_is_orbit.
+
+(* none missed (model): when sin(theta)/lambda does not decrease along the three loop directions inside every segment's cone
+   (gram_ok: the Gram products of the directions, and of the start with each direction, are non-negative), every allowed point of a
+   cone inside the shell is a row of the traversal.  Where gram_ok fails the implementation does miss reflections (known finding F6). *)
+Theorem C06_traversal_complete_if_monotone : forall G Tmin Tmax Tterm allowed, Tmax <= Tterm -> forall fuel segs l,
+  all_segments G Tmin Tmax Tterm allowed fuel segs = Some l -> (forall seg, In seg segs -> gram_ok G seg = true) ->
+  forall x seg, In seg segs -> in_cone seg x -> keep G Tmin Tmax allowed x = true -> In x l.
+Proof. exact all_segments_complete. Qed.
+Print Assumptions C06_traversal_complete_if_monotone.
+(* the condition holds for every conforming reciprocal metric of the orthorhombic, tetragonal, cubic and hexagonal-axes systems
+   (and for monoclinic / triclinic tables when the reciprocal metric happens to be orthogonal) *)
+Theorem C06_monotone_systems : forall laue choice G, (choice = "standard" \/ choice = "hexagonal")%string -> monotone_system laue choice G ->
+  forall seg, In seg (segs_of laue choice) -> gram_ok G seg = true.
+Proof. exact monotone_system_ok. Qed.
+Print Assumptions C06_monotone_systems.
+Theorem C06_traversal_complete_in_those_systems : forall laue choice G Tmin Tmax Tterm allowed fuel l,
+  (choice = "standard" \/ choice = "hexagonal")%string -> monotone_system laue choice G -> Tmax <= Tterm ->
+  all_segments G Tmin Tmax Tterm allowed fuel (segs_of laue choice) = Some l ->
+  forall x seg, In seg (segs_of laue choice) -> in_cone seg x -> allowed x = true -> Tmin < qform G x <= Tmax -> In x l.
+Proof. exact traversal_complete_systems. Qed.
+Print Assumptions C06_traversal_complete_in_those_systems.
+Theorem C06_monotone_fails_for_oblique_monoclinic : exists G seg, In seg (segs_of "2/m" "standard") /\ gram_ok G seg = false.
+Proof. exact mono_fails_oblique. Qed.
+Print Assumptions C06_monotone_fails_for_oblique_monoclinic.
+Theorem C06_boolean_cone_test_is_cone_membership : forall seg x, in_region seg x = true -> in_cone seg x.
+Proof. exact in_region_cone. Qed.
+Print Assumptions C06_boolean_cone_test_is_cone_membership.
+
+(* one per Laue family, for all of Z^3 and every setting: if x lies in a cone of the traversal and so does x R for an element R of the
+   setting's Laue group (rotation parts and their negatives), then x R = x (and it is the same cone).  laue_mats s is defined for
+   every setting (C06_laue_groups_defined). *)
+Theorem C06_asymmetric_unit_holds_one_member_per_family : forall s L segs, In s all_settings -> laue_mats s = Some L ->
+  lookup_segm segm_laue (sg_laue s) (sg_choice s) = Some segs ->
+  forall R seg1 seg2 x, In R L -> In seg1 segs -> In seg2 segs -> in_cone seg1 x -> in_cone seg2 (vmZ x R) -> vmZ x R = x /\ seg1 = seg2.
+Proof. exact one_per_family. Qed.
+Print Assumptions C06_asymmetric_unit_holds_one_member_per_family.
+Theorem C06_rows_one_per_family : forall s L segs G Tmin Tmax Tterm allowed fuel l,
+  In s all_settings -> laue_mats s = Some L -> lookup_segm segm_laue (sg_laue s) (sg_choice s) = Some segs ->
+  all_segments G Tmin Tmax Tterm allowed fuel segs = Some l ->
+  forall x y R, In x l -> In y l -> In R L -> y = vmZ x R -> y = x.
+Proof. exact rows_one_per_family. Qed.
+Print Assumptions C06_rows_one_per_family.
+Theorem C06_laue_groups_defined : forallb (fun s => match laue_mats s with Some L => negb (Nat.eqb (List.length L) 0) | None => false end) all_settings = true.
+Proof. exact laue_mats_defined. Qed.
+Print Assumptions C06_laue_groups_defined.
